@@ -142,7 +142,7 @@ class BranchInterp:
                     return
                 if isinstance(s, ast.Raise):
                     raise Opaque("unsupported symbol (dispatcher raises)")
-                if isinstance(s, (ast.AugAssign, ast.Expr, ast.Assert)):
+                if isinstance(s, (ast.AugAssign, ast.Expr, ast.Assert, ast.Pass)):
                     continue
                 if isinstance(s, ast.For):
                     if has_mat_assign(s) or any(isinstance(n, ast.Subscript) and unparse(n.value) in ("mat",) for n in ast.walk(s)):
@@ -421,7 +421,7 @@ class Mat2:
                     raise Opaque("unsupported")
                 elif isinstance(s, ast.For):
                     raise Opaque("loop")
-                elif isinstance(s, ast.Expr):
+                elif isinstance(s, (ast.Expr, ast.Pass, ast.Assert)):
                     continue
                 else:
                     raise AnalysisError(f"2x2 statement: {unparse(s)[:50]}")
